@@ -214,8 +214,7 @@ def exhaustive(al, nsrc, nssrc):
                 ("add", DS, n), ("add", n, DS), ("sub", DS, n), ("sub", n, DS)]
     out += [("mul", DS, ("symT", 0)), ("mul", ("symT", 1), DS)]
     for u in ("neg", "inv", "linv", "rinv"):
-        if not (al == "AVtb" and u == "linv"):
-            out.append((u, DP))
+        out.append((u, DP))          # VTB has no left inverse: NotImplementedError on both sides
     out.append(("neg", DS))
     out.append(("dot", DP, DP2))
     for f in fixed:
